@@ -330,6 +330,9 @@ def LN(
     https://support.office.com/en-us/article/
         ln-function-81fe1ed7-dac9-4acd-ba1d-07a142c6118f
     """
+    if number <= 0:
+        raise xlerrors.NumExcelError(f'number {number} must be positive')
+
     return math.log(number)
 
 
@@ -344,7 +347,15 @@ def LOG(
     https://support.office.com/en-us/article/
         log-function-4e82f196-1ca9-4747-8fb0-6c4a3abb3280
     """
-    return math.log(float(number), float(base))
+    number = float(number)
+    base = float(base)
+    if number <= 0 or base <= 0:
+        raise xlerrors.NumExcelError(
+            f'number {number} and base {base} must be positive')
+    if base == 1:
+        raise xlerrors.DivZeroExcelError('base must not be 1')
+
+    return math.log(number, base)
 
 
 @xl.register()
@@ -357,7 +368,11 @@ def LOG10(
     https://support.office.com/en-us/article/
         log10-function-c75b881b-49dd-44fb-b6f4-37e3486a0211
     """
-    return np.log10(float(number))
+    number = float(number)
+    if number <= 0:
+        raise xlerrors.NumExcelError(f'number {number} must be positive')
+
+    return np.log10(number)
 
 
 @xl.register()
